@@ -296,6 +296,9 @@ func TestWorker(t *testing.T) {
 	if propID == "" {
 		t.Skip("VERIF_PROP not set")
 	}
+	if wrapC15 != nil {
+		wrapC15()
+	}
 	p := Registry[propID]
 	if p == nil {
 		fmt.Fprintf(os.Stderr, "unknown property %s\n", propID)
